@@ -24,6 +24,9 @@ pub fn stub_history_get(_h: &sa::HistoryTable, _p: Player, _m: Move) -> i32 {
     kani::assume(v >= 0 && v <= sa::HISTORY_MAX_SCORE);
     v
 }
+/// for the larger corpus positions: an empty history table (all quiet scores equal, so the quiet order is the generation order);
+/// hash move, killers and counter move stay arbitrary
+pub fn stub_history_zero(_h: &sa::HistoryTable, _p: Player, _m: Move) -> i32 { 0 }
 
 pub const MAXN: usize = 64;
 
